@@ -98,6 +98,21 @@ where go : List String → DState × String
       | .ok x => (d, "200 " ++ hexOrDash x)
       | .error _ => (d, "5xx")
     | none => (d, "bad-op")
+  | "range" :: n :: rest =>
+    match parseNat? n with
+    | some n =>
+      match takeHex n rest with
+      | some (stored, ";" :: _m :: gbhs) =>
+        let results : List (Except Err Bytes) := gbhs.map fun g =>
+          if g = "err" then .error .storage else
+          match fromHex g with
+          | some v => .ok v
+          | none => .error .storage
+        match fixRange results stored with
+        | .ok xs => (d, s!"200 {xs.length} " ++ joinSp (xs.map hexOrDash))
+        | .error _ => (d, "5xx")
+      | _ => (d, "bad-op")
+    | none => (d, "bad-op")
   | _ => (d, "bad-op")
 
 def run (_ : List String) : IO UInt32 := do
